@@ -10,7 +10,7 @@
     [completeb]) and, by [C15_invariants_hold], after every history. *)
 From Coq Require Import ZArith List Bool Lia.
 From SpyneV Require Import C15.Spec C15.OdictProofs C15.StoreProofs C15.OpProofs C15.EvoProofs
-  C15.Proofs C15.FieldsProofs C15.DecimalProofs C15.ExStore.
+  C15.Proofs C15.FieldsProofs C15.DecimalProofs C15.ProtoProofs C15.ExStore.
 Import ListNotations.
 Open Scope Z_scope.
 
@@ -91,7 +91,7 @@ Theorem C15_fresh_simple : forall s c kw s' n,
     n = size s /\ lookup s' n = Some r' /\
     c_kind r' = KSimple fam /\ c_base r' = Some c /\ c_orig r' = Some (root_of s c) /\
     c_fields r' = [] /\
-    forall fuel k, resolve_f (S fuel) (cl s') n k = fresh_lookup s c kw1 fuel k.
+    forall fuel k, resolve_f (S fuel) (cl s') n k = fresh_lookup s c (eff_kw s kw1) fuel k.
 Proof. exact fresh_simple. Qed.
 
 Theorem C15_fresh_complex : forall fuel s c kw ca caa s' n,
@@ -100,8 +100,27 @@ Theorem C15_fresh_complex : forall fuel s c kw ca caa s' n,
     lookup s c = Some r /\ is_simple (c_kind r) = false /\
     n = size s /\ lookup s' n = Some r' /\
     c_kind r' = c_kind r /\ c_base r' = Some c /\ c_orig r' = Some (root_of s c) /\
-    forall fuel k, resolve_f (S fuel) (cl s') n k = fresh_lookup s c kw fuel k.
+    forall fuel k, resolve_f (S fuel) (cl s') n k = fresh_lookup s c (eff_kw s kw) fuel k.
 Proof. exact fresh_complex. Qed.
+
+(** the protocol objects passed as prot= / protocol= / p= are caller data: no operation, and no
+    history, writes their type_attrs (the keyword set of a derivation is a COPY of them, updated
+    with the keywords: [eff_kw]) *)
+Theorem C15_protocols_untouched : forall s o s' res,
+  step s o = ROk (s', res) -> protos s' = protos s.
+Proof. exact step_protos. Qed.
+
+Theorem C15_protocols_untouched_history : forall ops s, protos (run s ops) = protos s.
+Proof. exact run_protos. Qed.
+
+(** calling a derived ByteArray type, T(kw), without naming an encoding is customize(): the new
+    class has the encoding of T (unless the protocol defaults name one) *)
+Theorem C15_call_keeps_encoding : forall s c r kw s' n,
+  wf s -> lookup s c = Some r -> c_kind r = KSimple FByteArray ->
+  call_simple s c kw = ROk (s', n) ->
+  zassoc K_ENCODING kw = None -> requested K_ENCODING (eff_kw s kw) = None ->
+  forall fuel, resolve_f (S fuel) (cl s') n K_ENCODING = resolve_f fuel (cl s) c K_ENCODING.
+Proof. exact call_keeps_encoding. Qed.
 
 (** Mandatory(cls) of any kind of class: the new class has min_occurs = 1 and is not nillable *)
 Theorem C15_mandatory_is_mandatory : forall fuel s c s' n,
@@ -116,7 +135,7 @@ Theorem C15_array_shape : forall s base t kw s' n,
   inv s -> make_array s base t kw = ROk (s', n) ->
   exists member ser,
     fields_of s' n = [(member, ser)] /\ root_of s' ser = root_of s t /\
-    forall f k, resolve_f (S f) (cl s') n k = fresh_lookup s base kw f k.
+    forall f k, resolve_f (S f) (cl s') n k = fresh_lookup s base (eff_kw s kw) f k.
 Proof. exact array_shape. Qed.
 
 (** customize() without child attributes: the same field table (same names, same order, the very
@@ -315,6 +334,33 @@ Example C15_ex_mandatory_array :
     end
   | _ => None
   end = Some (5, 7, Some (VInt 1), Some (VInt 2), [8], [6], Some (VInt 1), Some (VInt 0)).
+Proof. vm_compute. reflexivity. Qed.
+
+(** HexBlob = ByteArray(encoding='hex'); HexBlob(min_occurs=1) is still hex, named hexBinary;
+    Unicode(prot=#0, max_len=3) gets min_occurs = 1 from the protocol and leaves the protocol alone,
+    so that Unicode(prot=#0) afterwards has no max_len of 3 *)
+Example C15_ex_call_and_prot :
+  match call_simple ex0b 5 [(K_ENCODING, VStr t_hex)] with
+  | ROk (s1, h) =>
+    match call_simple s1 h [(K_MIN_OCCURS, VInt 1)] with
+    | ROk (s2, h2) =>
+      match call_simple s2 4 [(K_PROT, VInt 0); (K_MAX_LEN, VInt 3)] with
+      | ROk (s3, u1) =>
+        match call_simple s3 4 [(K_P, VInt 0)] with
+        | ROk (s4, u2) =>
+          Some (resolve s4 h2 K_ENCODING, get_tname s4 h2, resolve s4 h2 K_MIN_OCCURS,
+                resolve s4 u1 K_MIN_OCCURS, resolve s4 u1 K_MAX_LEN, resolve s4 u1 K_PROT,
+                resolve s4 u2 K_MIN_OCCURS, resolve s4 u2 K_MAX_LEN, resolve s4 u2 K_PROT, protos s4)
+        | _ => None
+        end
+      | _ => None
+      end
+    | _ => None
+    end
+  | _ => None
+  end = Some (Some (VStr t_enc_hex), Some (TStr t_hexBinary), Some (VInt 1),
+              Some (VInt 1), Some (VInt 3), Some (VInt 0),
+              Some (VInt 1), Some VInf, Some (VInt 0), protos ex0b).
 Proof. vm_compute. reflexivity. Qed.
 
 Example C15_ex_order :
